@@ -14,7 +14,8 @@ from ..rt import Outcome, ev, notrace, conc
 from ..xh import Harness
 from ..main import PropSpec
 
-OPS = ["add-thread", "add-process", "add-remote", "run", "kill-a-child", "restart-workers", "make-a-worker-stuck", "failing-registration"]
+OPS = ["add-thread", "add-process", "add-remote", "run", "kill-a-child", "restart-workers", "make-a-worker-stuck", "failing-registration",
+       "run-whose-callback-raises"]
 EXITS = ["with-exit", "with-body-raises", "close", "terminate"]
 FORCE = [None, True, False]
 
@@ -66,6 +67,8 @@ def _run(W, ops, exitmode, tmo, force):
     has_thread = False
     body_exc = None
 
+    raise_after = [False]
+
     def body():
         nonlocal runs, stuck, has_thread
         for o in ops:
@@ -108,6 +111,24 @@ def _run(W, ops, exitmode, tmo, force):
                 want = [("p", runs, x) for x in range(3)]
                 if sorted(res) != sorted(want):
                     return "c09.run-results-do-not-match-this-runs-inputs"
+            elif op == "run-whose-callback-raises":
+                if stuck or not [w for w in pool.workers if w.is_alive()]:
+                    continue
+                runs += 1
+                seen = [0]
+
+                def cb(worker, what, *a):
+                    if what == "finished":
+                        seen[0] += 1
+                        if seen[0] == 1:
+                            raise BodyError()       # with further answers still outstanding
+                try:
+                    pool.run(iter([runs] * 4), iter(range(4)), worker_callback=cb, worker_extra_pending_inputs=1)
+                except BodyError:
+                    raise_after[0] = True
+                    return None                     # the user's exception leaves the with-block
+                except PoolError:
+                    continue
             elif op == "kill-a-child":
                 for w in pool.workers:
                     if not w.is_thread and w.is_alive():
@@ -142,17 +163,22 @@ def _run(W, ops, exitmode, tmo, force):
         try:
             with pool:
                 sig = body()
-                if sig is None and exitmode == 1:
+                if sig is None and (exitmode == 1 or raise_after[0]):
                     raise BodyError()
         except BodyError:
             pass
+        except RuntimeError as e:
+            return "c09.leaving-the-with-block-raises-RuntimeError"
     else:
         sig = body()
         if sig is None:
-            if exitmode == 2:
-                pool.close()
-            else:
-                pool.terminate()
+            try:
+                if exitmode == 2 and not raise_after[0]:
+                    pool.close()
+                else:
+                    pool.terminate()
+            except RuntimeError:
+                return "c09.close-or-terminate-raises-RuntimeError"
     if sig is not None:
         try:
             pool.terminate(timeout=1, force=True)
@@ -160,7 +186,7 @@ def _run(W, ops, exitmode, tmo, force):
             pass
         return sig
     # ---- after the pool has been left
-    graceful = exitmode in (0, 2)
+    graceful = exitmode in (0, 2) and not raise_after[0]
     s.sleep(2)
     for w in pool.workers:
         if w.is_thread:
